@@ -52,8 +52,9 @@ def check(case):
         return discard("crash:" + crash.bucket)
     try:
         doc = shexc.read(text)
-    except shexc.ShExCError:
-        return discard("unparsable-output")
+    except shexc.ShExCError as e:
+        # nothing conforms to a schema that is not ShEx (in the strict domain the unchanged tree always emits readable ShExC)
+        return violation("the extracted schema is not readable as ShExC (%s), so no instance can be said to conform\n%s" % (e, text[:2000]), (), True)
     cdoc = oracle.canon(doc, inst_prop)
     M, sel, label_of = common.model_for(case, triples)
     if len(set(label_of.values())) != len(label_of):
